@@ -719,3 +719,125 @@ pub fn show_bytes(bytes: &[u8]) -> String {
     }
     s
 }
+
+// ------------------------------------------------------------------------------------------------
+// Iterator protocol monitor: a random script of Iterator calls (next, nth, by_ref adaptors, consuming
+// terminals) is executed on the iterator under test and, call for call, on `want.iter()` - std's slice
+// iterator over the expected sequence is the oracle. Nothing is demanded after the first None.
+
+/// Runs one random script. Ok(number of calls compared) or Err(description of the first discrepancy with
+/// the script so far).
+pub fn iter_protocol<T, I>(mut it: I, want: &[T], rng: &mut Rng, max_calls: usize) -> Result<u64, String>
+where
+    T: PartialEq + std::fmt::Debug + Clone,
+    I: Iterator<Item = T>,
+{
+    let mut model = want.iter().cloned();
+    let mut log: Vec<String> = Vec::new();
+    let mut calls = 0u64;
+    macro_rules! cmp {
+        ($desc:expr, $got:expr, $exp:expr) => {{
+            let (g, e) = ($got, $exp);
+            calls += 1;
+            log.push($desc);
+            if g != e {
+                let shown: Vec<String> = log.iter().rev().take(12).rev().cloned().collect();
+                return Err(format!("after calls [{}]: got {:?}, want {:?}", shown.join(", "), g, e));
+            }
+        }};
+    }
+    for _ in 0..max_calls {
+        let remaining = model.clone().count();
+        let small = |rng: &mut Rng| -> usize {
+            match rng.below(4) {
+                0 => 0,
+                1 => 1,
+                2 => rng.usize_below(4),
+                _ => rng.usize_below(remaining + 2),
+            }
+        };
+        match rng.below(12) {
+            0 | 1 | 2 => {
+                let (g, e) = (enter_call(|| it.next()), model.next());
+                let done = e.is_none();
+                cmp!("next()".to_string(), g, e);
+                if done {
+                    return Ok(calls);
+                }
+            }
+            3 | 4 => {
+                let k = small(rng);
+                let (g, e) = (enter_call(|| it.nth(k)), model.nth(k));
+                let done = e.is_none();
+                cmp!(format!("nth({})", k), g, e);
+                if done {
+                    return Ok(calls);
+                }
+            }
+            5 => {
+                let k = small(rng);
+                let g: Vec<T> = enter_call(|| it.by_ref().take(k).collect());
+                let e: Vec<T> = model.by_ref().take(k).collect();
+                let done = e.len() < k;
+                cmp!(format!("by_ref().take({}).collect()", k), g, e);
+                if done {
+                    return Ok(calls);
+                }
+            }
+            6 => {
+                let k = small(rng);
+                let (g, e) = (enter_call(|| it.by_ref().skip(k).next()), model.by_ref().skip(k).next());
+                let done = e.is_none();
+                cmp!(format!("by_ref().skip({}).next()", k), g, e);
+                if done {
+                    return Ok(calls);
+                }
+            }
+            7 => {
+                let s = 1 + small(rng).min(70);
+                let m = 1 + rng.usize_below(4);
+                let g: Vec<T> = enter_call(|| it.by_ref().step_by(s).take(m).collect());
+                let e: Vec<T> = model.by_ref().step_by(s).take(m).collect();
+                let done = e.len() < m;
+                cmp!(format!("by_ref().step_by({}).take({}).collect()", s, m), g, e);
+                if done {
+                    return Ok(calls);
+                }
+            }
+            8 => {
+                // find of an element known to be ahead (or of nothing)
+                if remaining == 0 {
+                    continue;
+                }
+                let ahead: Vec<T> = model.clone().collect();
+                let target = ahead[rng.usize_below(ahead.len())].clone();
+                let (g, e) = (enter_call(|| it.by_ref().find(|x| *x == target)), model.by_ref().find(|x| *x == target));
+                cmp!(format!("by_ref().find(== {:?})", target), g, e);
+            }
+            9 => {
+                let (g, e) = (enter_call(|| it.count()), model.count());
+                cmp!("count()".to_string(), g, e);
+                return Ok(calls);
+            }
+            10 => {
+                let (g, e) = (enter_call(|| it.last()), model.last());
+                cmp!("last()".to_string(), g, e);
+                return Ok(calls);
+            }
+            _ => {
+                let g: Vec<T> = enter_call(|| it.collect());
+                let e: Vec<T> = model.collect();
+                cmp!("collect()".to_string(), g, e);
+                return Ok(calls);
+            }
+        }
+    }
+    Ok(calls)
+}
+
+fn enter_call<R>(f: impl FnOnce() -> R) -> R {
+    enter_lib();
+    let r = f();
+    leave_lib();
+    r
+}
